@@ -8,6 +8,7 @@
      AddLeaf(level, type, name, tag)       a field of a palette type
      OpenEmbedded(level, val|ptr, tag)     an embedded struct type E<n> (initially empty: `type E3 struct{}` is legal Go)
      OpenNamed(level, name, tag)           a field of a named struct type S<n> (not embedded: hseq lists it as one entry)
+     ReuseStruct(level, type, how)         a finished struct type once more: embedded elsewhere or as a named field
    The construction order of a tree is unique, so no shape is reached twice. *)
 EXTENDS Layout
 
@@ -20,13 +21,23 @@ CONSTANTS LeafTypes,     \* subset of PaletteTypes used for leaves
           MaxDepth,      \* nesting levels (1 = flat)
           MaxSub,        \* sub-structures (embedded or named) per struct
           MaxTotal,      \* fields in the whole tree
+          Reuse,         \* BOOLEAN: allow a finished struct type to be used a second time (ReuseStruct)
           TypePrefix     \* prepended to the generated type names (two structures in one scope need different type names)
 
 VARIABLE sh
 
-RECURSIVE CountFields(_), SpineDepth(_), StructAt(_,_), AppendAt(_,_,_)
+RECURSIVE CountFields(_), SpineIn(_,_), StructAt(_,_), AppendAt(_,_,_), TypeCount(_,_), Structs(_), SpineTypes(_,_)
 CountFields(s) == IF s = <<>> THEN 0 ELSE 1 + CountFields(Head(s).sub) + CountFields(Tail(s))
-SpineDepth(s) == IF s # <<>> /\ HasSub(s[Len(s)]) THEN 1 + SpineDepth(s[Len(s)].sub) ELSE 1
+\* how often the struct type ty occurs in the tree; a type that occurs more than once (ReuseStruct) is sealed: all its
+\* occurrences must stay identical, so the spine does not descend into it
+TypeCount(s, ty) == IF s = <<>> THEN 0
+                    ELSE (IF HasSub(Head(s)) THEN (IF Head(s).ty = ty THEN 1 ELSE 0) + TypeCount(Head(s).sub, ty) ELSE 0) + TypeCount(Tail(s), ty)
+SpineIn(root, s) == IF s # <<>> /\ HasSub(s[Len(s)]) /\ TypeCount(root, s[Len(s)].ty) = 1 THEN 1 + SpineIn(root, s[Len(s)].sub) ELSE 1
+SpineDepth(s) == SpineIn(s, s)
+\* all struct types of the tree as [ty, sub], and the names of those that are still open (on the spine)
+Structs(s) == IF s = <<>> THEN {} ELSE (IF HasSub(Head(s)) THEN {[ty |-> Head(s).ty, sub |-> Head(s).sub]} \cup Structs(Head(s).sub) ELSE {}) \cup Structs(Tail(s))
+SpineTypes(root, s) == IF s # <<>> /\ HasSub(s[Len(s)]) /\ TypeCount(root, s[Len(s)].ty) = 1 THEN {s[Len(s)].ty} \cup SpineTypes(root, s[Len(s)].sub) ELSE {}
+Closed(s) == {x \in Structs(s) : x.ty \notin SpineTypes(s, s)}
 StructAt(s, j) == IF j = 1 THEN s ELSE StructAt(s[Len(s)].sub, j - 1)
 AppendAt(s, j, f) == IF j = 1 THEN Append(s, f) ELSE [s EXCEPT ![Len(s)].sub = AppendAt(@, j - 1, f)]
 
@@ -59,7 +70,17 @@ OpenNamed == NamedStructs /\ \E j \in 1..SpineDepth(sh) : LET st == StructAt(sh,
              /\ Room(st) /\ j < MaxDepth /\ NumSub(st) < MaxSub
              /\ \E nm \in LeafNames(st, n), tg \in Tags :
                   sh' = AppendAt(sh, j, [name |-> nm, tag |-> tg, ty |-> TypePrefix \o "S" \o ToString(n), emb |-> "no", sub |-> <<>>])
-Next == AddLeaf \/ OpenEmbedded \/ OpenNamed
+\* a struct type that is already finished is used once more: embedded (by value / by pointer) in another struct, at another
+\* depth, or as the type of a plain named field.  (Go forbids the same embedded type twice in one struct - the field
+\* names would clash - and a type cannot contain itself by value: only finished types are reused.)
+ReuseStruct == Reuse /\ \E j \in 1..SpineDepth(sh) : LET st == StructAt(sh, j)  n == CountFields(sh) + 1 IN
+             /\ Room(st) /\ j < MaxDepth /\ NumSub(st) < MaxSub
+             /\ \E x \in Closed(sh) :
+                  \/ \E k \in EmbKinds : x.ty \notin NamesOf(st)
+                        /\ sh' = AppendAt(sh, j, [name |-> x.ty, tag |-> NoTag, ty |-> x.ty, emb |-> k, sub |-> x.sub])
+                  \/ NamedStructs /\ \E nm \in LeafNames(st, n) :
+                        sh' = AppendAt(sh, j, [name |-> nm, tag |-> NoTag, ty |-> x.ty, emb |-> "no", sub |-> x.sub])
+Next == AddLeaf \/ OpenEmbedded \/ OpenNamed \/ ReuseStruct
 
 (* a cheap position-weighted checksum, used to draw a seeded sample of the enumerated shapes *)
 RECURSIVE Sum(_,_)
